@@ -534,6 +534,13 @@ def pipeline_canon(c, r):
     return " ".join(sorted(out))
 
 
+def frag_expected_reply(i, rs):
+    """the reply an in-limit echo call must get: its result, or -- the response-size limit is C08's business and part of the
+    configuration -- the -32008 object when the result does not fit max_response_body_size"""
+    normal = L.response_bytes(i, b'"ok"')
+    return normal if len(normal) <= rs else L.too_big_response(i, rs)
+
+
 def pipeline_oracle(c, r):
     """The property restated on the implementation's output alone: list of (key, detail)."""
     where = label(c)
@@ -916,7 +923,7 @@ def frag_oracle(c, r, twin=None):
                 fails.append(("inlimit-request-rejected:" + where, "%s was rejected with -32007" % desc))
             elif len(other) != 1:
                 fails.append(("inlimit-reply-count:" + where, "%d replies for %s: %s" % (len(other), desc, rep[:4])))
-            elif meta["kind"] == "echo" and "id" in meta and other[0] != L.response_bytes(meta["id"], b'"ok"'):
+            elif meta["kind"] == "echo" and "id" in meta and other[0] != frag_expected_reply(meta["id"], c["rs"]):
                 fails.append(("inlimit-reply-altered:" + where, "%s: %r" % (desc, other[0][:120])))
     dead += [x for x in r.get("final", []) if L.frag_frame(x)[0] == "marker"]
     # the handler log: nothing but the in-limit echo calls of the script, each once
